@@ -373,6 +373,10 @@ impl Property for C03 {
                 let mut nontrivial = false;
                 let mut days_passed: u32 = 0;
                 for (step, a) in attempts.iter().enumerate() {
+                    if a.days_before % 7 == 3 {
+                        upgrade_and_migrate(&env, &gw.id)?;
+                        cx.label("upgrade_and_migration_in_history");
+                    }
                     if a.days_before > 0 && days_passed + a.days_before as u32 <= 300 {
                         days_passed += a.days_before as u32;
                         advance_ledgers(&env, a.days_before as u32 * 17280);
